@@ -533,6 +533,25 @@ class Flow:
             return None
         return [st.target.id for st in c.node.body if isinstance(st, ast.AnnAssign) and isinstance(st.target, ast.Name)]
 
+    def _field_of_unknown_record(self, base, attr):
+        """record.field where the resolver does not know the record's class (a loop variable over a generator, say): when exactly
+        one NamedTuple of the package has a field of that name and everything the base can be is a tuple with that position,
+        the field is that position."""
+        cands = []
+        for c in self.prog.classes.values():
+            ntf = self._nt_fields_of_class(c)
+            if ntf and attr in ntf:
+                cands.append(ntf.index(attr))
+        if len(cands) != 1:
+            return None
+        recs = self._records(base, cands[0])
+        if not recs:
+            return None
+        out = set()
+        for r_ in recs:
+            out |= r_[1][cands[0]]
+        return frozenset(out)
+
     def _records(self, terms, idx):
         """The tuple terms a record-valued expression can be (through element / loop wrappers), provided every alternative is
         one with more than idx positions; [] otherwise."""
@@ -621,6 +640,8 @@ class Flow:
             return None
         G = tg[0]
         ys = [y for y in own_nodes(G.node) if isinstance(y, (ast.Yield, ast.YieldFrom))]
+        # `yield from G(...)` of the generator itself hands on tuples of the same make (a recursive walk): it adds no new shape
+        ys = [y for y in ys if not (isinstance(y, ast.YieldFrom) and isinstance(y.value, ast.Call) and any(k[0] == "func" and k[1] is G for k in self.res.kinds(y.value.func, G)))]
         if not ys or not all(isinstance(y, ast.Yield) and isinstance(y.value, ast.Tuple) and len(y.value.elts) > idx and not any(isinstance(e, ast.Starred) for e in y.value.elts) for y in ys):
             return None
         cenv = self._bind_env(G, it, f, env, depth, skip_self=G.cls is not None and not G.is_static)
@@ -869,10 +890,17 @@ class Flow:
                     for it in insts:
                         out |= self._inst_attr(it, e.attr, env, depth)
                 else:
-                    out.add(("attr", base, e.attr))
+                    rec = self._field_of_unknown_record(base, e.attr)
+                    if rec is not None:
+                        out |= rec
+                    else:
+                        out.add(("attr", base, e.attr))
         if out:
             return frozenset(out)
         base = self.term(e.value, fn, env, depth + 1, mod)
+        rec = self._field_of_unknown_record(base, e.attr)
+        if rec is not None:
+            return rec
         insts = self._insts_in(base)
         if insts:
             for it in insts:
